@@ -102,8 +102,11 @@ class SymEnv(object):
         return _q(x)
 
     # -- logic
-    def assume(self, c):
-        sym.assume(c)
+    def assume(self, c, check=True):
+        if isinstance(c, bool):
+            self.p.assume(c)
+        else:
+            self.p.assume(sym.bterm(c), check=check)
 
     def prove(self, c, label, detail=None):
         return sym.prove(c, label, detail=detail)
@@ -299,7 +302,7 @@ class ConcEnv(object):
     def const(self, x):
         return float(_q(x))
 
-    def assume(self, c):
+    def assume(self, c, check=True):
         if not bool(c):
             raise ReplayDiverged("assumption false in concrete replay")
 
